@@ -100,3 +100,44 @@ Definition reviewed_access : list access := [
    are reached by name only and are not apply functions. A new switch read by the apply path breaks C15_switches_known. *)
 Definition varied_switches : list string := ["ExpandShardsEnable"; "RetentionAutoCreate"; "UseIncSyncData"; "SchemaCleanEn"].
 Definition fixed_switches : list string := ["GetHaPolicy"; "repDisPolicy"; "JoinPeers"; "SQLiteEnabled"; "IsLogKeeper"].
+
+(* fields whose value may reach a reader of the apply path from BEFORE a restore (or as the zero value of a fresh Data)
+   without harm. The translator computes the exposures (Gen_Transient.exposed_reads: a root of the apply path from which a
+   chain of calls reaches a read of the field with no assignment to it earlier in the reading function or in a caller on
+   the chain); every transient field NOT listed here must have none - its readers are dominated by a write on every path.
+     OpsMap*, opsMapMu  incremental-sync cache of applied commands: AddCmdAsOpToOpMap and SetOps maintain the cache itself and
+                        decide nothing about the catalogue; Restore deliberately keeps the node's own cache (SetOps)
+     SQLite             handle on an external store (presence is persisted); InsertFiles is outside the modelled commands
+     SchemaLock         a lock
+     originName         derived from Name by every constructor and by unmarshal
+   Not listed, hence required to be write-dominated or unread: ExpandShardsEnable, AdminUserExists,
+   UpdateNodeTmpIndexCommandStart, tagKeysTotal. *)
+Definition exposable_fields : list string :=
+  ["OpsMap"; "OpsMapMinIndex"; "OpsMapMaxIndex"; "OpsToMarshalIndex"; "opsMapMu"; "SQLite"; "SchemaLock"; "originName"].
+
+(* the command kinds of storeFSM.executeCmd's dispatch table (Gen_Commands.command_kinds, regenerated from the source):
+   modelled in Coq (C16.Model.cmd through Cmds.Core, or a constructor of Cmds.xcmd; argument shapes as in NOTES.md) ... *)
+Definition modelled_kinds : list string := [
+  (* C16 catalogue core *)
+  "CreateDatabaseCommand"; "MarkDatabaseDeleteCommand"; "DropDatabaseCommand"; "CreateRetentionPolicyCommand";
+  "UpdateRetentionPolicyCommand"; "MarkRetentionPolicyDeleteCommand"; "DropRetentionPolicyCommand";
+  "SetDefaultRetentionPolicyCommand"; "CreateMeasurementCommand"; "MarkMeasurementDeleteCommand"; "DropMeasurementCommand";
+  "CreateShardGroupCommand"; "DeleteShardGroupCommand"; "PruneGroupsCommand"; "DeleteIndexGroupCommand";
+  "CreateDataNodeCommand"; "CreateDbPtViewCommand"; "UpdatePtInfoCommand";
+  (* coq/C15/Cmds.v *)
+  "CreateUserCommand"; "DropUserCommand"; "UpdateUserCommand"; "SetPrivilegeCommand"; "SetAdminPrivilegeCommand";
+  "CreateSubscriptionCommand"; "DropSubscriptionCommand"; "CreateContinuousQueryCommand"; "ContinuousQueryReportCommand";
+  "DropContinuousQueryCommand"; "NotifyCQLeaseChangedCommand"; "CreateMetaNodeCommand"; "SetMetaNodeCommand";
+  "DeleteMetaNodeCommand"; "CreateSqlNodeCommand"; "UpdateNodeTmpIndexCommand"; "MarkTakeoverCommand"; "MarkBalancerCommand";
+  "VerifyDataNodeCommand"; "RegisterQueryIDOffsetCommand";
+  "ExpandGroupsCommand"   (* its effect on the catalogue is an abstract function (config.cfg_expandf) *)
+].
+(* ... or covered by the coverage tables and the three-replica differential only *)
+Definition unmodelled_kinds : list string := [
+  "SetDataCommand"; "DeleteDataNodeCommand"; "ReShardingCommand"; "UpdateSchemaCommand"; "AlterShardKeyCmd";
+  "UpdateShardInfoTierCommand"; "UpdateIndexInfoTierCommand"; "UpdateNodeStatusCommand"; "UpdateSqlNodeStatusCommand";
+  "UpdateMetaNodeStatusCommand"; "CreateEventCommand"; "UpdateEventCommand"; "RemoveEventCommand";
+  "CreateDownSamplePolicyCommand"; "DropDownSamplePolicyCommand"; "UpdateShardDownSampleInfoCommand"; "CreateStreamCommand";
+  "DropStreamCommand"; "UpdatePtVersionCommand"; "SetNodeSegregateStatusCommand"; "RemoveNodeCommand";
+  "UpdateReplicationCommand"; "UpdateMeasurementCommand"; "InsertFilesCommand"; "ReplaceMergeShardsCommand"; "RecoverMetaData"
+].
